@@ -102,3 +102,11 @@ func nhReplayCmd(c json.RawMessage) (string, bool) {
 	})
 	return desc, failed
 }
+
+// nhReplayAny replays a history or a schedule artefact.
+func nhReplayAny(kind string, c json.RawMessage) (string, bool) {
+	if kind == "sched" {
+		return c08ReplaySched(c)
+	}
+	return nhReplayCmd(c)
+}
